@@ -1076,6 +1076,48 @@ fn extract_lifecycle(repo: &std::path::Path, out: &mut Out) {
             ))
         })(),
     );
+    // where the metrics guard lives in the actor loop (C20)
+    out.item(
+        "metrics_placement",
+        (|| -> R<String> {
+            let file = parse_file(&repo.join("src/actor.rs"))?;
+            let f = find_fn(&file, "run_actor_lifecycle").ok_or("fn run_actor_lifecycle not found")?;
+            let (sels, _) = find_selects(&f.block);
+            let sel = sels.first().ok_or("no select!")?;
+            let mail = sel.arms.iter().find(|a| a.fut == "receiver.recv()").map(|a| strip_ws(&tok(&a.body))).ok_or("no mailbox arm")?;
+            let whole = strip_ws(&tok(&f.block));
+            let mut elsewhere = 0usize;
+            for other in ["src/lib.rs", "src/actor_ref.rs", "src/handler.rs", "src/actor_control.rs"] {
+                if let Ok(t) = std::fs::read_to_string(repo.join(other)) {
+                    elsewhere += strip_ws(&t).matches("MessageProcessingGuard::new(").count();
+                }
+            }
+            let sites = whole.matches("MessageProcessingGuard::new(").count() + elsewhere;
+            let env_start = mail.find("Some(MailboxMessage::Envelope{").ok_or("no envelope arm")?;
+            let env_end = mail.find("Some(MailboxMessage::StopGracefully").unwrap_or(mail.len());
+            let env = if env_start < env_end { &mail[env_start..env_end] } else { "" };
+            let guard_txt = "#[cfg(feature=\"metrics\")]letmetrics_ref=actor_ref.clone();#[cfg(feature=\"metrics\")]let_metrics_guard=crate::metrics::collector::MessageProcessingGuard::new(metrics_ref.metrics_collector());";
+            let g = env.find(guard_txt);
+            let h = env.find("payload.handle_message(&mutactor,actor_ref,reply_channel)");
+            let before = matches!((g, h), (Some(g), Some(h)) if g < h);
+            let kept = !env.contains("drop(_metrics_guard") && !env.contains("forget(_metrics_guard") && !env.contains("drop(metrics_ref");
+            // nothing that can leave the arm early between the guard and the handler
+            let straight = match (g, h) {
+                (Some(g), Some(h)) if g < h => {
+                    let between = &env[g + guard_txt.len()..h];
+                    !between.contains("continue") && !between.contains("break") && !between.contains("return") && !between.contains(".await")
+                }
+                _ => false,
+            };
+            Ok(format!(
+                "def metrics_guard_sites : Nat := {sites}
+def metrics_guard_before_handler_in_envelope_arm : Bool := {before}
+def metrics_guard_lives_to_arm_end : Bool := {kept}
+def metrics_guard_straight_to_handler : Bool := {straight}
+"
+            ))
+        })(),
+    );
     // handle_message: on_tell_result only on the no-reply-channel branch
     out.item(
         "handle_message",
